@@ -20,6 +20,7 @@ structure LAttr where
   k : Nat := 1        -- alive kernel taps (product over kernel dims; `kernel_size_opt` for Conv1d)
   bias : Bool := true -- has a bias (after BatchNorm folding a bias always exists)
   osz : Nat := 1      -- number of output positions (product of output spatial dims; 1 for linear)
+  g : Nat := 1        -- `groups` of an excluded convolution (`fixed`); searchable layers have 1 (or are `dw`)
   deriving Repr, DecidableEq
 
 inductive Op where
@@ -269,7 +270,7 @@ def nodeParams (p : Prog) (ms : List (List Bool)) (full : Bool) (n : Nat) : Nat 
   | .conv _ _ a => cout * (cin * a.k + b2n a.bias)
   | .dw _ a => cin * (a.k + b2n a.bias)
   | .lin _ _ a => cout * (cin + b2n a.bias)
-  | .fixed s c a _ => if full then c * (w.getD s 0 * a.k + b2n a.bias) else 0
+  | .fixed s c a _ => if full then c * (w.getD s 0 / a.g * a.k + b2n a.bias) else 0
   | .fixedDw s a => if full then w.getD s 0 * (a.k + b2n a.bias) else 0
   | _ => 0      -- a layer invoked again holds no parameters of its own
 
